@@ -264,7 +264,7 @@ pub fn check_on(c: &Case, ctx: &mut Ctx, ind: &mut Ind) -> Result<(), Failure> {
                     format!(
                         "{} ({} path) step {}: {} = {:e}, documented formula gives {:e}; |err| {:e} > tol {:e} (condition number {:e}); last inputs {:?}",
                         c.cfg.tag(), if c.scalar { "scalar" } else { "bar" }, i, field, got, r.val.to_f64(), e, tol, r.c,
-                        &bars[t.saturating_sub(n + 2)..].iter().map(|b| if c.scalar { vec![b.c] } else { vec![b.h, b.l, b.c, b.v] }).collect::<Vec<_>>()
+                        &bars[t.saturating_sub(n.saturating_add(2))..].iter().map(|b| if c.scalar { vec![b.c] } else { vec![b.h, b.l, b.c, b.v] }).collect::<Vec<_>>()
                     ),
                 )?;
             }
@@ -276,7 +276,7 @@ pub fn check_on(c: &Case, ctx: &mut Ctx, ind: &mut Ind) -> Result<(), Failure> {
     ctx.label_n("steps_skipped_degenerate", degen);
     ctx.label_n("steps_skipped_tainted", taint);
     let needs_equal = !matches!(k, Kind::Ppo | Kind::Roc);
-    if len >= n + 2 && ups && downs && (equals || !needs_equal) && checked > 0 {
+    if len >= n.saturating_add(2) && ups && downs && (equals || !needs_equal) && checked > 0 {
         ctx.nontrivial(fp);
         ctx.label("nontrivial");
     }
@@ -489,6 +489,27 @@ pub fn run(g: &mut Global) {
     let hi = g.tier.pick(400usize, 3000usize);
     g.random("random", g.tier.pick(60000, 400000), &move || strategy(1, hi, 0), &check);
     g.random("long", g.tier.pick(48, 600), &|| strategy(5000, 10000, 0), &check);
+    // window-less period arguments at the top of the usize range (2^31, 2^32, 2^32+1, 2^33, 2^40, 2^53+1, 2^63,
+    // MAX-1, MAX): valid configurations like any other — a period converted through a narrower integer type or
+    // rounded on its way to the smoothing factor builds without complaint and computes something else
+    const BP: [usize; 9] = [1 << 31, 1 << 32, (1 << 32) + 1, 1 << 33, 1 << 40, (1 << 53) + 1, usize::MAX / 2 + 1, usize::MAX - 1, usize::MAX];
+    g.exhaustive(
+        "boundary_periods",
+        9 * 5,
+        &|i| {
+            let b = BP[(i % 9) as usize];
+            let cfg = match i / 9 {
+                0 => Cfg { kind: Kind::Rsi, p: vec![b], m: X(0.0) },
+                1 => Cfg { kind: Kind::Ppo, p: vec![b, 26, 9], m: X(0.0) },
+                2 => Cfg { kind: Kind::Ppo, p: vec![12, b, 9], m: X(0.0) },
+                3 => Cfg { kind: Kind::Ppo, p: vec![12, 26, b], m: X(0.0) },
+                _ => Cfg { kind: Kind::SlowStoch, p: vec![5, b], m: X(0.0) },
+            };
+            let vals: Vec<f64> = (0..60).map(|j| 100.0 + if j % 2 == 0 { 10.0 } else { -7.5 } + j as f64 * 0.375).collect();
+            Case { cfg, scalar: true, xs: xs(&vals), bars: vec![], stride: 0 }
+        },
+        &check,
+    );
     // exact arithmetic: periods 1, 3, 7 (alpha = 1, 1/2, 1/4) on small-integer prices, where two averages become
     // bit-equal mid-stream; every sequence of 6 prices over {1,2,3,4}, fed twice
     const DY: [usize; 3] = [1, 3, 7];
